@@ -109,11 +109,37 @@ var c10Keys = []string{"foo", "bar", "Pab", "P", "x1", "ab_c", "k", "tmpl", "Psk
 var c10Sids = []string{"", "s", "Ps", "alice", "8x", "P", "s2"}
 var c10Types = []uint8{db.DATATYPE_BIN, db.DATATYPE_MENU, db.DATATYPE_TEMPLATE, db.DATATYPE_STATICLOAD, db.DATATYPE_STATE, db.DATATYPE_USERDATA}
 
-func genC10Seq(r *vk.RNG) []c10op {
+// binKeys draws binary keys (the purpose of the fs binary-key mode). Keys whose standard base64 form contains
+// '/' cannot be file names and are left out; '+' (sextet 62) is kept on purpose.
+func binKeys(r *vk.RNG) []string {
+	var l []string
+	for len(l) < 10 {
+		b := make([]byte, r.Range(1, 6))
+		for j := range b {
+			b[j] = vk.Pick(r, []byte{0x00, 0x01, 0x0f, 0x80, 0xf8, 0xfb, 0xfe, 0xff, 'a', 'k', 0x3e, 0x7e, 0xbe})
+		}
+		if strings.Contains(base64.StdEncoding.EncodeToString(b), "/") {
+			continue
+		}
+		l = append(l, string(b))
+	}
+	// shared prefixes make listings interesting
+	for _, k := range []string{l[0] + "x", l[0] + l[1], l[2][:1], l[3] + "\xfb"} {
+		if !strings.Contains(base64.StdEncoding.EncodeToString([]byte(k)), "/") {
+			l = append(l, k)
+		}
+	}
+	return l
+}
+
+func genC10Seq(r *vk.RNG, binary bool) []c10op {
 	n := r.Range(10, 80)
 	ops := []c10op{{Op: "prefix", Typ: vk.Pick(r, c10Types)}}
 	nval := 0
 	keys := c10Keys[:r.Range(4, len(c10Keys))]
+	if binary {
+		keys = binKeys(r)
+	}
 	sids := c10Sids[:r.Range(2, len(c10Sids))]
 	langs := []string{"", "", "nor", "swa", "eng"}
 	for len(ops) < n {
@@ -153,6 +179,9 @@ func genC10Seq(r *vk.RNG) []c10op {
 			}
 			ops = append(ops, c10op{Op: "dump", Key: p})
 		default:
+			if binary {
+				continue // the resource getters derive further keys (sym_menu, sym.txt): symbols only
+			}
 			ops = append(ops, c10op{Op: vk.Pick(r, []string{"res-template", "res-menu", "res-code", "res-func"}), Key: vk.Pick(r, keys), Ctx: ctxl})
 		}
 	}
@@ -233,10 +262,10 @@ type c10backend struct {
 	rs    *resource.DbResource
 }
 
-func runC10Seq(c *vk.Ctx, ops []c10op, key string) {
+func runC10Seq(c *vk.Ctx, ops []c10op, key string, backends []string) {
 	ref := newRefStore()
 	var bks []*c10backend
-	for _, name := range []string{"mem", "fs", "fsbin", "pg"} {
+	for _, name := range backends {
 		b, err := app.NewBackend(name)
 		if err != nil {
 			c.Inconclusive(err.Error())
@@ -582,7 +611,7 @@ func c10Strings(ops []c10op) []string {
 
 func C10() *vk.Check {
 	return &vk.Check{ID: "C10", Level: "exploration", MinEvaluations: 500, Shards: func(string) int { return 16 }, Run: runC10,
-		Rule: "lock-step reference map: PRNG sequences of 10..80 operations (Put / Get / SetPrefix / SetSession / SetLanguage / SetLock incl. seal / Dump on fs / resource.DbResource getters) are applied to one reference map keyed by (type, session-if-sessioned, key, language) and to each backend (mem, fs text, fs binary-key, Postgres fake); every result is compared with the model and therefore with every other backend. Keys are in the documented symbol grammar and never end in a language suffix (the alphabet contains the letters that double as fs type characters: P, 8, ...), session ids are dot-free incl. empty, values text and binary incl. empty, all six data types, language from SetLanguage or from the context value. " +
+		Rule: "lock-step reference map: PRNG sequences of 10..80 operations (Put / Get / SetPrefix / SetSession / SetLanguage / SetLock incl. seal / Dump on fs / resource.DbResource getters) are applied to one reference map keyed by (type, session-if-sessioned, key, language) and to each backend (mem, fs text, fs binary-key, Postgres fake); every result is compared with the model and therefore with every other backend. Four of five sequences use keys in the documented symbol grammar that never end in a language suffix; every fifth uses binary keys (bytes 0x00..0xff, base64 forms with '+') on mem, fs binary-key mode and Postgres. Well-formed keys (the alphabet contains the letters that double as fs type characters: P, 8, ...), session ids are dot-free incl. empty, values text and binary incl. empty, all six data types, language from SetLanguage or from the context value. " +
 			"distinct = hash(op list); non-trivial = at least 3 Puts and 3 Gets.",
 		Assumptions: []string{"trusted base: the reference map and, for Postgres, pgfake", "listings are compared for the types without language scope; Dump on mem/Postgres is outside the property"}}
 }
@@ -598,7 +627,13 @@ func runC10(c *vk.Ctx) {
 			continue
 		}
 		r := c.RNG(key)
-		ops := genC10Seq(r)
+		binary := i%5 == 4 // every fifth sequence uses binary keys on the backends that take them
+		ops := genC10Seq(r, binary)
+		backends := []string{"mem", "fs", "fsbin", "pg"}
+		if binary {
+			backends = []string{"mem", "fsbin", "pg"}
+			c.Count("binary_key_sequences", 1)
+		}
 		c.Begin(key)
 		puts, gets := 0, 0
 		var sb strings.Builder
@@ -612,7 +647,7 @@ func runC10(c *vk.Ctx) {
 				gets++
 			}
 		}
-		runC10Seq(c, ops, key)
+		runC10Seq(c, ops, key, backends)
 		c.Eval(vk.Hash64(sb.String()), puts >= 3 && gets >= 3)
 		if i < 1 {
 			c.Sample(map[string]interface{}{"key": key, "ops": c10Strings(ops)})
